@@ -50,6 +50,20 @@ def gen(ctx):
         n = rng.randint(3, 6)
         rows, a, b = planted(rng, n)
         out.append({"rows": rows, "kind": "planted", "a": a, "b": b})
+    # symmetric cubic loops whose single crossing sits ON the dyadic grid of the bisection (s = (1 - k/8)/2 and 1 - s): integer nets
+    # x = (-192 + 3 k^2, 192 + k^2, -(192 + k^2), 192 - 3 k^2), y = (0, c, c, 0), optionally sheared / scaled by integers and elevated
+    for _ in range(10 if ctx.quick() else 200):
+        k = rng.randint(2, 7)
+        c = F(rng.choice([32, 64, 96, 128]))
+        xs = [F(-192 + 3 * k * k), F(192 + k * k), F(-192 - k * k), F(192 - 3 * k * k)]
+        ys = [F(0), c, c, F(0)]
+        m = rng.choice([((1, 0), (0, 1)), ((1, 1), (0, 1)), ((1, 0), (1, 1)), ((0, 1), (-1, 0)), ((2, 1), (1, 1))])
+        rows = [[m[0][0] * x + m[0][1] * y for x, y in zip(xs, ys)], [m[1][0] * x + m[1][1] * y for x, y in zip(xs, ys)]]
+        rows = [[v / 64 for v in r] for r in rows]
+        for _e in range(rng.randint(0, 2)):
+            rows = [oq.elevate(r) for r in rows]
+        if all(F(float(v)) == v for r in rows for v in r):
+            out.append({"rows": rows, "kind": "grid-loop", "a": (1 - F(k, 8)) / 2, "b": (1 + F(k, 8)) / 2})
     for _ in range(8 if ctx.quick() else 200):
         n = rng.randint(2, 6)
         rows = [[F(rng.randint(-8, 8), 2) for _ in range(n + 1)] for _ in range(2)]
@@ -94,6 +108,9 @@ def judge(c, op, cfg, raw):
             cr = da[0] * db[1] - da[1] * db[0]
             if cr * cr * 2 ** 10 >= (da[0] ** 2 + da[1] ** 2) * (db[0] ** 2 + db[1] ** 2):
                 return "planted transversal self-crossing B(%s) = B(%s) not reported (got %s)" % (c["a"], c["b"], [tuple(map(float, p)) for p in pairs])
+    if c["kind"] == "grid-loop":
+        if len(pairs) != 1 or abs(pairs[0][0] - c["a"]) > F(1, 2 ** 30) or abs(pairs[0][1] - c["b"]) > F(1, 2 ** 30):
+            return "symmetric cubic loop crossing itself exactly once at (%s, %s): got %s" % (c["a"], c["b"], [tuple(map(float, p)) for p in pairs])
     if c["kind"] == "doctest-cubic-loop":
         e = c["expected"]
         if len(pairs) != 1 or abs(float(pairs[0][0]) - e[0]) > 1e-9 or abs(float(pairs[0][1]) - e[1]) > 1e-9:
